@@ -1,4 +1,5 @@
 // Suites that need access to items private to this module (feature ipa-verif, test builds only).
+<<<<<<< HEAD
 //
 // ---------------------------------------------------------------------------------------------
 // C20 — h2h / s2s endpoints refuse unauthenticated callers. `include!`d as
@@ -260,10 +261,172 @@ pub mod c20 {
             }
         }
         v
+=======
+
+// ------------------------------------------------------------------------------------------------
+// C09 — query string suite (c09_query): c09.query str|parse|rt|json …  (needs net::http_serde, private to net)
+
+pub mod c09_qs {
+    use axum::extract::FromRequestParts;
+
+    use crate::ipa_verif::proto::*;
+    use crate::{
+        ff::FieldType,
+        helpers::query::{HybridQueryParams, QueryConfig, QuerySize, QueryType},
+        net::http_serde::query::QueryConfigQueryParams,
+    };
+
+    fn cfg(a: &[&str]) -> QueryConfig {
+        let field_type = match a[1] {
+            "Fp31" => FieldType::Fp31,
+            "Fp32BitPrime" => FieldType::Fp32BitPrime,
+            f => panic!("harness: unknown field type {f}"),
+        };
+        let size = QuerySize::try_from(a[2].parse::<u32>().unwrap()).expect("harness: invalid size");
+        let query_type = match a[0] {
+            "test-multiply" => QueryType::TestMultiply,
+            "test-add" => QueryType::TestAddInPrimeField,
+            "test-sharded-shuffle" => QueryType::TestShardedShuffle,
+            "malicious-hybrid" => QueryType::MaliciousHybrid(HybridQueryParams {
+                max_breakdown_key: a[3].parse().unwrap(),
+                with_dp: a[4].parse().unwrap(),
+                epsilon: a[5].parse().unwrap(),
+                plaintext_match_keys: a[6] == "true",
+            }),
+            q => panic!("harness: unknown query type {q}"),
+        };
+        QueryConfig { size, field_type, query_type }
+    }
+
+    fn show(c: &QueryConfig) -> String {
+        let base = format!("{} {:?} {}", c.query_type.as_ref(), c.field_type, c.size);
+        match c.query_type {
+            QueryType::MaliciousHybrid(p) => {
+                format!("{base} {} {} {} {}", p.max_breakdown_key, p.with_dp, p.epsilon, p.plaintext_match_keys)
+            }
+            _ => base,
+        }
+    }
+
+    fn parse(query: &str) -> String {
+        let req = hyper::Request::get(format!("http://localhost/query?{query}")).body(()).unwrap();
+        let (mut parts, ()) = req.into_parts();
+        let r = block_on_timeout(10, async move { QueryConfigQueryParams::from_request_parts(&mut parts, &()).await });
+        match r {
+            Ok(Ok(c)) => format!("ok {}", show(&c.0)),
+            Ok(Err(_)) => "err".into(),
+            Err(t) => t,
+        }
+    }
+
+    pub fn exec(a: &[&str]) -> String {
+        match a[0] {
+            "str" => QueryConfigQueryParams(cfg(&a[1..])).to_string(),
+            "parse" => parse(a[1]),
+            "rt" => parse(&QueryConfigQueryParams(cfg(&a[1..])).to_string()),
+            "json" => {
+                let c = cfg(&a[1..]);
+                let text = serde_json::to_string(&c).unwrap();
+                match serde_json::from_str::<QueryConfig>(&text) {
+                    Ok(c2) if c2 == c => "rt-ok".into(),
+                    Ok(_) => format!("rt-differs {text}"),
+                    Err(e) => format!("rt-fail {}", canon(&e.to_string())),
+                }
+            }
+            op => panic!("harness: unknown query op {op}"),
+        }
+    }
+
+    pub fn generate(rng: &mut Rng, thorough: bool) -> Vec<String> {
+        let mut out = vec![];
+        let sizes: Vec<u64> = vec![1, 2, 255, 256, 65535, 65536, 999_999_999, 1_000_000_000];
+        let eps: Vec<f64> = vec![5.0, 0.1, 1.151, 1e-9, 1e21, 3.0e-5, 0.0, 123456.789, f64::MIN_POSITIVE, f64::MAX];
+        let mut cfgs: Vec<String> = vec![];
+        for f in ["Fp31", "Fp32BitPrime"] {
+            for qt in ["test-multiply", "test-add", "test-sharded-shuffle"] {
+                for s in &sizes {
+                    cfgs.push(format!("{qt} {f} {s}"));
+                }
+            }
+            // every combination of the boundary values of the hybrid parameters
+            for s in &sizes {
+                for mbk in [0u32, 1, 5, 255, 256, u32::MAX] {
+                    for dp in [0u32, 1, u32::MAX] {
+                        for (i, e) in eps.iter().enumerate() {
+                            for pm in [false, true] {
+                                if !thorough && (i + (mbk as usize) + (dp as usize) + (*s as usize)) % 3 != 0 {
+                                    continue;
+                                }
+                                cfgs.push(format!("malicious-hybrid {f} {s} {mbk} {dp} {e} {pm}"));
+                            }
+                        }
+                    }
+                }
+            }
+            for _ in 0..(if thorough { 2000 } else { 200 }) {
+                let e = f64::from_bits(rng.next_u64());
+                if !e.is_finite() {
+                    continue;
+                }
+                cfgs.push(format!(
+                    "malicious-hybrid {f} {} {} {} {e} {}",
+                    1 + rng.below(1_000_000_000), rng.next_u64() as u32, rng.next_u64() as u32, rng.bool()
+                ));
+            }
+        }
+        for c in &cfgs {
+            out.push(format!("c09.query rt {c}"));
+            out.push(format!("c09.query str {c}"));
+            out.push(format!("c09.query json {c}"));
+        }
+        // hand-written query strings: key order, missing / unknown / malformed keys, bad sizes
+        let base = "query_type=malicious-hybrid&field_type=Fp32BitPrime&size=10";
+        for q in [
+            "size=10&query_type=test-add&field_type=Fp31".to_string(),
+            "field_type=Fp31&size=10&query_type=test-multiply&unknown=1".to_string(),
+            "query_type=test-add&field_type=Fp31&size=0".to_string(),
+            "query_type=test-add&field_type=Fp31&size=1000000001".to_string(),
+            "query_type=test-add&field_type=Fp31&size=4294967295".to_string(),
+            "query_type=test-add&field_type=Fp31&size=4294967296".to_string(),
+            "query_type=test-add&field_type=Fp31&size=-1".to_string(),
+            "query_type=test-add&field_type=Fp31&size=abc".to_string(),
+            "query_type=test-add&field_type=Fp31".to_string(),
+            "query_type=test-add&size=10".to_string(),
+            "field_type=Fp31&size=10".to_string(),
+            "query_type=test-add&field_type=Fp61BitPrime&size=10".to_string(),
+            "query_type=test-add&field_type=fp31&size=10".to_string(),
+            "query_type=not-a-query&field_type=Fp31&size=10".to_string(),
+            "query_type=TestMultiply&field_type=Fp31&size=10".to_string(),
+            format!("{base}&max_breakdown_key=5&with_dp=1&epsilon=5"),
+            format!("{base}&max_breakdown_key=5&with_dp=1&epsilon=5&plaintext_match_keys=true"),
+            format!("{base}&max_breakdown_key=5&with_dp=1&epsilon=5&plaintext_match_keys=false"),
+            format!("{base}&max_breakdown_key=5&with_dp=1&epsilon=5&plaintext_match_keys=1"),
+            format!("{base}&max_breakdown_key=5&with_dp=1"),
+            format!("{base}&max_breakdown_key=5&epsilon=5"),
+            format!("{base}&with_dp=1&epsilon=5"),
+            format!("{base}&max_breakdown_key=4294967296&with_dp=1&epsilon=5"),
+            format!("{base}&max_breakdown_key=5&with_dp=-1&epsilon=5"),
+            format!("epsilon=5&with_dp=1&max_breakdown_key=5&{base}"),
+            "query_type=test-add&field_type=Fp31&size=10&max_breakdown_key=x".to_string(),
+        ] {
+            out.push(format!("c09.query parse {q}"));
+        }
+        out
+>>>>>>> agent-a2
     }
 }
 
 #[test]
+<<<<<<< HEAD
 fn verif_c20_http() {
     crate::ipa_verif::proto::run_suite("c20_http", c20::generate, c20::exec);
 }
+=======
+fn verif_c09_query() {
+    crate::ipa_verif::proto::run_suite("c09_query", c09_qs::generate, |req| {
+        let t: Vec<&str> = req.split(' ').collect();
+        c09_qs::exec(&t[1..])
+    });
+}
+
+>>>>>>> agent-a2
